@@ -332,17 +332,4 @@ example : (∀ o ∈ ([⟨[255, 251], true⟩, ⟨[255, 253, 24, 111, 107], true
       [{ ctrl := [255, 251], data := [], replies := [] },
        { ctrl := [], data := [111, 107], replies := [[255, 252, 24]] }] := by decide
 
-/-- the `range` loop of `util.ByteIsAny` as translated from the current source is list membership —
-which is what the translator's library table renders its call sites in
-`handleControlCharResponse` as -/
-theorem generated_byteIsAny_eq (b : UInt8) (l : Bytes) :
-    Gen.Bodies.Telnet.byteIsAny b l = l.contains b := by
-  unfold Gen.Bodies.Telnet.byteIsAny Go.forRange
-  rw [Go.forRangeFrom_find (fun ss => b == ss) (fun _ => true)]
-  induction l with
-  | nil => simp
-  | cons a l ih =>
-    simp only [List.find?, List.contains_cons]
-    cases h : b == a <;> simp [ih]
-
 end Scrapli.Telnet.C15
